@@ -35,6 +35,7 @@ type pairEvent struct {
 	ModeB  string   `json:"modeb"`
 	Partner string  `json:"partner"` // reuse pairs: the session that shared the persister
 	Flush  bool     `json:"flush"`
+	After  string   `json:"after"` // kept-persister pairs: class (ok | bad | long) of the partner's request that directly preceded this session's first request
 }
 
 func hpick(seed int64, req, call, n int) int {
@@ -78,6 +79,13 @@ func serve(p *Program, sid string, mode string, store dbLike, inputs []string, p
 // serveReuse serves two sessions alternately (A0 B0 A1 B1 ...) with a fresh engine per request but through ONE Persister
 // object over one store, as an application that keeps its persister does: WithFlush (which promises that "the state and
 // memory will be empty" after every successful Save), or without it for sessions the store already has.
+// reuseDelay: number of requests of the first session served before the second session's first request (set by the caller
+// around a call; 0 = strict alternation from the start)
+var reuseDelay int
+
+// reuseAfter: set by serveReuse - class of the first session's request that directly preceded the second session's first one
+var reuseAfter string
+
 func serveReuse(p *Program, sids [2]string, store dbLike, inputs [2][]string, pseeds [2]int64, flush bool, out *ndw, stats *viseStats, explicit ...[2][][]int) [2][]obsRec {
 	var cur [2][]int // explicit external results of the current request (TLC histories), if given
 	pe := persist.NewPersister(store)
@@ -114,6 +122,15 @@ func serveReuse(p *Program, sids [2]string, store dbLike, inputs [2][]string, ps
 		for k := 0; k < 2; k++ {
 			if done[k] {
 				continue
+			}
+			if k == 1 && pos[1] == 0 && pos[0] < reuseDelay && !done[0] {
+				continue // the second session starts only after the first has served reuseDelay requests
+			}
+			if k == 1 && pos[1] == 0 {
+				reuseAfter = ""
+				if pos[0] > 0 {
+					reuseAfter = inputClass(inputs[0][pos[0]-1])
+				}
 			}
 			if pos[k] >= len(inputs[k]) {
 				done[k] = true
@@ -154,6 +171,9 @@ func serveReuse(p *Program, sids [2]string, store dbLike, inputs [2][]string, ps
 	return obs
 }
 
+// VERIF_KEPT_INSERT=1 (set by the C17 check): histories with refused inputs are also served through a kept flushing persister
+var keptInsert = os.Getenv("VERIF_KEPT_INSERT") == "1"
+
 var refusedInputs = []string{"\x00", " 1", "*", "_", "<", "-1", "\xff", "\n", "é", "1\n", "0\r\n", "bob\nmallory", "2\n2"}
 
 // vise-pairs <trace-out> <programs> <sessions-per-program> <max-requests> <stores: mem[,fs][,pg]>
@@ -179,9 +199,10 @@ func cmdVisePairs(args []string) error {
 		inputs []string
 		pseed  int64
 		b      []obsRec
+		plain  []string
 	}
 	for pi := 0; pi < nprog; pi++ {
-		var prev *served
+		var prev, prevI *served
 		p := genProgram(rng, fmt.Sprintf("q%d_%d", seed(), pi))
 		// a pre-VM check runs in the first Exec of every engine OBJECT: once in long-lived operation, in every request
 		// in persisted operation - the two modes differ by design, so paired programs have none
@@ -216,7 +237,7 @@ func cmdVisePairs(args []string) error {
 				npairs += 2
 				prev = nil
 			} else {
-				prev = &served{sid, inputs, pseed, b}
+				prev = &served{sid: sid, inputs: inputs, pseed: pseed, b: b}
 			}
 			// C17: refused inputs inserted at random positions, both modes
 			var with []string
@@ -245,6 +266,31 @@ func cmdVisePairs(args []string) error {
 			}
 			out.put(pairEvent{Ev: "pair", Kind: "insert", Sid: sid, Store: st, Inputs: encAll(inputs), Extra: encAll(with), A: ref, B: c, ModeA: m, ModeB: m})
 			npairs++
+			// C17 with a kept persister: the two histories WITH their refused inputs, alternating through one flushing Persister -
+			// a refused request of one session is followed directly by a request of the other (also its very first one)
+			if !keptInsert {
+				// (only in the C17 check's runs)
+			} else if prevI != nil {
+				istore, iclean := newStoreC(st, sid+"i")
+				// the second session is brand new to the store right after a refused request of the first one (the first refused
+				// input from the third request on), if there is one
+				reuseDelay = 0
+				for j := 2; j < len(prevI.inputs); j++ {
+					if inputClass(prevI.inputs[j]) != "ok" {
+						reuseDelay = j + 1
+						break
+					}
+				}
+				r := serveReuse(p, [2]string{prevI.sid + ".RI", sid + ".RI"}, istore, [2][]string{prevI.inputs, with}, [2]int64{prevI.pseed, pseed}, true, out, stats)
+				reuseDelay = 0
+				iclean()
+				out.put(pairEvent{Ev: "pair", Kind: "insert", Sid: prevI.sid, Store: st, Inputs: encAll(prevI.plain), Extra: encAll(prevI.inputs), A: prevI.b, B: r[0], ModeA: "P", ModeB: "R", Partner: sid, Flush: true})
+				out.put(pairEvent{Ev: "pair", Kind: "insert", Sid: sid, Store: st, Inputs: encAll(inputs), Extra: encAll(with), A: b, B: r[1], ModeA: "P", ModeB: "R", Partner: prevI.sid, Flush: true, After: reuseAfter})
+				npairs += 2
+				prevI = nil
+			} else {
+				prevI = &served{sid: sid, inputs: with, pseed: pseed, b: b, plain: inputs}
+			}
 		}
 	}
 	summary(map[string]any{"programs": nprog, "pairs": npairs, "sessions": stats.Sessions, "requests": stats.Requests, "iterations": stats.Iterations,
@@ -365,12 +411,20 @@ func cmdVisePairsHist(args []string) error {
 		if pairall && n%2 == 0 && len(past) >= 2 {
 			// replay form: the file holds pairs of histories; each pair shares a persister, flushed and unflushed
 			q := past[len(past)-2]
+			kind := "reuse"
+			for _, in := range append(append([]string{}, q.h.Inputs...), h.Inputs...) {
+				if inputClass(in) != "ok" {
+					kind = "insert" // histories with refused inputs: judged as "as if never sent"
+				}
+			}
 			for _, fl := range []bool{true, false} {
 				rs, rclean := newStoreC(st, sid+"r")
+				reuseDelay = h.Delay
 				r := serveReuse(p, [2]string{q.sid + ".R", sid + ".R"}, rs, [2][]string{q.h.Inputs, h.Inputs}, [2]int64{}, fl, null, stats, [2][][]int{q.h.Picks, h.Picks})
+				reuseDelay = 0
 				rclean()
-				out.put(pairEvent{Ev: "pair", Kind: "reuse", Sid: q.sid, Store: st, Inputs: encAll(q.h.Inputs), Extra: encAll(h.Inputs), A: q.bb, B: r[0], ModeA: "P", ModeB: "R", Partner: sid, Flush: fl})
-				out.put(pairEvent{Ev: "pair", Kind: "reuse", Sid: sid, Store: st, Inputs: encAll(h.Inputs), Extra: encAll(q.h.Inputs), A: bb, B: r[1], ModeA: "P", ModeB: "R", Partner: q.sid, Flush: fl})
+				out.put(pairEvent{Ev: "pair", Kind: kind, Sid: q.sid, Store: st, Inputs: encAll(q.h.Inputs), Extra: encAll(h.Inputs), A: q.bb, B: r[0], ModeA: "P", ModeB: "R", Partner: sid, Flush: fl})
+				out.put(pairEvent{Ev: "pair", Kind: kind, Sid: sid, Store: st, Inputs: encAll(h.Inputs), Extra: encAll(q.h.Inputs), A: bb, B: r[1], ModeA: "P", ModeB: "R", Partner: q.sid, Flush: fl, After: reuseAfter})
 			}
 		}
 		if len(past) > 16 {
